@@ -198,8 +198,13 @@ func orOK(s string) string {
 }
 
 func (e *env) doDelete(cid []byte, alphaClass int) {
-	b := e.b
 	s, aw, sd := e.alphaSigners(alphaClass)
+	e.doDeleteAs(cid, s, aw, sd, e.w.Majority.ScriptHash() == e.w.Alphabet.ScriptHash() && aw)
+}
+
+// doDeleteAs: committee = the transaction carries the committee-majority witness as well.
+func (e *env) doDeleteAs(cid []byte, s []world.SignerSpec, aw bool, sd string, committee bool) {
+	b := e.b
 	cidh := hexs(cid)
 	c := e.m.live[cidh]
 	r := e.w.Invoke(s, e.cn, "delete", cid, bytes.Repeat([]byte{9}, 64), []byte{})
@@ -219,6 +224,14 @@ func (e *env) doDelete(cid []byte, alphaClass int) {
 		if r.Halted() || !r.Diff.Empty() {
 			b.Violation(fmt.Sprintf("delete by %s succeeded or changed storage", sd), e.detail(rs, nil))
 		}
+	case c.reserved && !committee:
+		// the NNS record of a committee-owned domain cannot be removed without the committee: the deletion is
+		// refused as a whole (a container removed with its record left behind would be a trace, seeded change C04-7)
+		class = "live-reserved-domain-without-committee"
+		if r.Halted() || !r.Diff.Empty() {
+			b.Violation(fmt.Sprintf("delete by %s of a container named in a committee-owned domain succeeded or changed storage without the committee's witness", sd), e.detail(rs, nil))
+		}
+		b.Hit("delete-refused:reserved-domain-without-committee")
 	default:
 		if !r.Halted() {
 			b.Violation(fmt.Sprintf("delete of a live container failed: %s", r.Fault), e.detail(rs, nil))
@@ -501,6 +514,37 @@ func runC04(b *runner.Batch) {
 			e.doSetEACL(e.pickID(), e.pickAlpha(8))
 		}
 		e.sweepC04(e.w.History[len(e.w.History)-1:])
+	}
+	// a container named inside a domain the committee registered for itself: created with both witnesses,
+	// cannot be deleted by the Alphabet alone (where the two accounts differ), deleted completely with both
+	if b.NViolations() == 0 && b.Index%2 == 0 {
+		w := e.w
+		majIsAlpha := w.Majority.ScriptHash() == w.Alphabet.ScriptHash()
+		name := fmt.Sprintf("resv%d", b.Index)
+		rr := w.Invoke(w.Major(), w.H("nns"), "register", name+".container", w.Majority.ScriptHash(), "ops@nspcc.io", int64(3600), int64(600), int64(10*365*24*3600), int64(3600))
+		b.Tx(1)
+		if rr.Halted() {
+			both := append(append([]world.SignerSpec{}, w.Alpha()...), w.Major()...)
+			if majIsAlpha {
+				both = w.Alpha()
+			}
+			p := mk("putnamed", 1, name)
+			p.signers, p.sdesc = both, "alphabet+committee"
+			e.doPut(p, "C04")
+			if c := e.m.live[hexs(p.blob.cid)]; c != nil {
+				c.reserved = true
+				e.sweepC04(nil)
+				e.doDeleteAs(c.cid, w.Alpha(), true, "alphabet", majIsAlpha)
+				e.sweepC04(nil)
+				if e.m.live[hexs(p.blob.cid)] != nil {
+					e.doDeleteAs(c.cid, both, true, "alphabet+committee", true)
+					e.sweepC04(nil)
+				}
+				b.Hit("container-named-in-a-committee-owned-domain")
+			}
+		} else {
+			b.Observe("the committee could not register a name in the container zone: " + rr.Fault)
+		}
 	}
 	// alias domain expiry before delete (virtual time): everything registered 10 years ago expires
 	if b.Index%3 == 0 && b.NViolations() == 0 {
